@@ -82,10 +82,37 @@ def run_cfg(ctx, fx):
         if not ctx.require(len(cos) == 1, "R09.2", msg, "handler body not found", fn=f["def"]):
             continue
         b = ctx.body(fx, cos[0])
-        ops = [t for _, t in b.normal_calls() if (t.get("callee") or "").startswith("std::collections::hash::map::") and (t.get("callee") or "").endswith(("::insert", "::remove", "::entry", "::clear", "::retain"))]
+        is_tabop = lambda t: (t.get("callee") or "").startswith("std::collections::hash::map::") and (t.get("callee") or "").endswith(("::insert", "::remove", "::entry", "::clear", "::retain"))
+        ops = [t for _, t in b.normal_calls() if is_tabop(t)]
+        via = None
+        if not ops:
+            # the table may be wrapped in a crate-local type whose methods perform the map operation: look one call down
+            for cbi, ct in b.normal_calls():
+                h = fx.fn(ct.get("resolved") or ct.get("callee") or "")
+                if h is not None and h["kind"] in ("fn", "assoc_fn") and not h.get("is_async"):
+                    hops = [x for _, x in ctx.body(fx, h).normal_calls() if is_tabop(x)]
+                    if hops:
+                        ops += hops
+                        via = (ct, h)
         if not ctx.require(len(ops) == 1 and ops[0]["callee"].endswith("::" + op), "R09.2", msg, "%s must perform exactly one %s on the table: %s" % (msg, op, [t["callee"].split("::")[-1] for t in ops]), fn=cos[0]["def"], site=cos[0]["loc"]):
             continue
         t = ops[0]
+        if via is not None:
+            # judge key and value inside the wrapper method in terms of its parameters, then the parameters at the call site
+            ct, h = via
+            hb = ctx.body(fx, h)
+            idf = [i for i, fl in enumerate(fx.adts["addr::weak_sender::WeakSender"]["variants"][0]["fields"]) if fl["name"] == "id"]
+            idp = "f%d" % idf[0] if idf else "f?"
+            mr = roots(hb, t["args"][0])
+            kr = hb.origins(t["args"][1])
+            ok = all(r.kind == "arg" and r.site == 1 for r in mr) and bool(kr) and all(o.kind == "arg" and o.site == 2 and o.proj and o.proj[-1] == idp for o in kr)
+            if op == "insert":
+                vr = hb.origins(t["args"][2])
+                ok = ok and bool(vr) and all(o.kind == "arg" and o.site == 2 and not [e for e in o.proj if e != "*"] for o in vr)
+            # call site: the table is the broker's own, the sender is the one the message carries
+            ok = ok and all(r.kind == "upvar" for r in roots(b, ct["args"][0])) and len(ct["args"]) >= 2 and all(o.kind == "upvar" for o in roots(b, ct["args"][1]))
+            ctx.require(ok and len(idf) == 1, "R09.2", msg, "%s must key the table by the id of the very sender it carries (through %s)" % (msg, h["def"]), fn=h["def"], site=t["l"], detail={"via": h["def"]})
+            continue
         mr = roots(b, t["args"][0])
         kr = b.origins(t["args"][1])
         ok_map = all(r.kind == "upvar" for r in mr)
@@ -142,13 +169,25 @@ def run_cfg(ctx, fx):
                     else:
                         src.add(o.kind)
                 ctx.ok("R09.3", "receiver-source", t["l"], sorted(src))
-            if (t.get("callee") or "").endswith("Iterator::collect"):
+        n_sets = 0
+        fam_bodies = [(co, b)]
+        for _cbi, ct in b.normal_calls():
+            h = fx.fn(ct.get("resolved") or ct.get("callee") or "")
+            if h is not None and h["kind"] in ("fn", "assoc_fn") and not h.get("is_async") and (h.get("impl_self") or "").startswith("broker::"):
+                fam_bodies.append((h, ctx.body(fx, h)))
+        for co_, b_ in fam_bodies:
+          for bi, t in b_.normal_calls():
+            if (t.get("callee") or "").endswith("Iterator::collect") and "addr::sender::Sender<" in (t.get("destty") or ""):
+                n_sets += 1
+                b = b_
                 ch = [t] + chain(b, t["args"][0])
                 names = [x["callee"].split("::")[-1] for x in ch]
                 fm = [x for x in ch if x["callee"].endswith("::filter_map")]
                 extra = [nm for nm in names if nm not in ("collect", "filter_map", "values", "iter", "into_iter", "deref")]
                 ok = len(fm) == 1 and fm[0]["args"][1].get("fn") == "addr::weak_sender::WeakSender::<M>::upgrade" and "values" in names and not extra
-                ctx.require(ok, "R09.3", "subscriber-set", "the subscribers of a publication must be the live entries of the table: values → filter_map(upgrade) → collect, got %s" % names, fn=co["def"], site=t["l"], detail=names)
+                ctx.require(ok, "R09.3", "subscriber-set", "the subscribers of a publication must be the live entries of the table: values → filter_map(upgrade) → collect, got %s" % names, fn=co_["def"], site=t["l"], detail=names)
+        b = fam_bodies[0][1]
+        ctx.floor("R09.3", "collections of the live subscribers in the publish handler", n_sets, 1)
     # R09.5 who touches the table; pruning keeps exactly the live entries
     from tywalk import field_accesses
     touch = {}
